@@ -1436,6 +1436,42 @@ def check_fresh_container_assignment(rep):
                         rep.fail('derived-container-refused', 'a %s container of the derived type %s was refused via %s' % (state, wname, api), case)
 
 
+def check_retyped_containers(rep):
+    """a populated SEQUENCE OF / SET OF copied into a container with another component type in one step
+    (clone / subtype with componentType=... and cloneValueFlag=True): the copy is refused, or every component it holds is
+    admitted by the new component type"""
+    I = univ.Integer
+    narrow = [('range 0..10', I().subtype(subtypeSpec=C.ValueRangeConstraint(0, 10)), lambda x: 0 <= x <= 10),
+              ('single 5|7', I().subtype(subtypeSpec=C.SingleValueConstraint(5, 7)), lambda x: x in (5, 7)),
+              ('all except 99', I().subtype(subtypeSpec=C.ConstraintsExclusion(C.SingleValueConstraint(99))), lambda x: x != 99),
+              ('range in range', I().subtype(subtypeSpec=C.ValueRangeConstraint(0, 100)).subtype(subtypeSpec=C.ValueRangeConstraint(5, 9)),
+               lambda x: 5 <= x <= 9)]
+    contents = [[5, 99], [5, 7], [0, 10, 11], [99], [-1], [7, 7, 7], []]
+    for cls in (univ.SequenceOf, univ.SetOf):
+        for nname, nt, admits in narrow:
+            for vals in contents:
+                src = cls(componentType=I())
+                src.extend(vals)
+                for route, make in (('clone', lambda: src.clone(componentType=nt, cloneValueFlag=True)),
+                                    ('subtype', lambda: src.subtype(componentType=nt, cloneValueFlag=True))):
+                    rep.evaluations += 1
+                    rep.count('retyped-containers')
+                    case = {'kind': 'retyped-container', 'container': cls.__name__, 'component': nname, 'values': vals, 'route': route}
+                    try:
+                        out = make()
+                        held = [int(x) for x in out]
+                    except error.PyAsn1Error:
+                        continue
+                    except Exception as ex:  # noqa
+                        rep.fail('retyped-leak-' + type(ex).__name__, '%s(%s) of %r: %s' % (route, nname, vals, ex), case)
+                        continue
+                    bad = [x for x in held if not admits(x)]
+                    if bad:
+                        rep.fail('construction-bypasses-constraint:retyped-container',
+                                 '%s of a %s holding %r with componentType=INTEGER (%s), cloneValueFlag=True returned a container '
+                                 'holding %r, which the component type rejects' % (route, cls.__name__, vals, nname, bad), case)
+
+
 def check_class_blind_assignment(rep):
     """a value object whose type has constraints of the same shape and operands as the field's, but of another class
     (INTEGER (-3..4) for a field INTEGER (-3 | 4); ALL EXCEPT c / c | c for c), holding a value the field rejects, must be
@@ -1603,6 +1639,8 @@ def run(rep, tier, seed):
     check_huge(rep)
     check_fresh_container_assignment(rep)
     check_class_blind_assignment(rep)
+    rep.case('retyped containers', nontrivial=True)
+    check_retyped_containers(rep)
     op_constr(rep, drv, rng, 10000 * k, 12)
     op_chain(rep, drv, rng, 1500 * k)
     op_super_pairs(rep, drv, rng, 3000 * k)
